@@ -25,6 +25,8 @@ pub struct Case {
     pub origin: String,
     /// extra look-ahead rows beyond M-1 (None: use `configure`)
     pub wrap_override: Option<usize>,
+    /// spare sequence rows of a hand-built striped sequence (0: as striped by the library)
+    pub spare_rows: usize,
 }
 
 impl Case {
@@ -40,6 +42,7 @@ impl Case {
             "seq_text": text,
             "matrix": model::matrix_to_json(&self.matrix),
             "wrap_override": self.wrap_override,
+            "spare_rows": self.spare_rows,
             "cfg": cfg.map(|c| c.name()),
         })
     }
@@ -51,6 +54,7 @@ impl Case {
             matrix: model::matrix_from_json(&v["matrix"]),
             origin: v["origin"].as_str().unwrap_or("").to_string(),
             wrap_override: v["wrap_override"].as_u64().map(|x| x as usize),
+            spare_rows: v["spare_rows"].as_u64().unwrap_or(0) as usize,
         }
     }
 }
@@ -118,10 +122,15 @@ pub fn check_case<A: Alphabet>(case: &Case, cfgs_: &[Cfg], light: bool) -> Outco
 
     for &cfg in cfgs_ {
         let c = cfg.lanes();
-        let r = model::stripe_rows(l, c);
+        let r = model::stripe_rows(l, c) + case.spare_rows;
         let ranges = range_menu(r, light);
         out.invocations += ranges.len() as u64;
-        let res: Result<ScoreOut, String> = catch(|| cfgs::score_f32::<A>(cfg, &syms, &pssm, &ranges, case.wrap_override));
+        let res: Result<ScoreOut, String> = {
+            cfgs::SPARE_ROWS.with(|x| x.set(case.spare_rows));
+            let r = catch(|| cfgs::score_f32::<A>(cfg, &syms, &pssm, &ranges, case.wrap_override));
+            cfgs::SPARE_ROWS.with(|x| x.set(0));
+            r
+        };
         let so = match res {
             Ok(s) => s,
             Err(p) => {
@@ -273,7 +282,7 @@ pub fn check_case<A: Alphabet>(case: &Case, cfgs_: &[Cfg], light: bool) -> Outco
 // matrices
 // ---------------------------------------------------------------------------
 
-pub const MATRIX_KINDS: [&str; 7] = ["enc", "int", "logodds", "neginf_row", "big", "tiny", "finite_wild"];
+pub const MATRIX_KINDS: [&str; 8] = ["enc", "int", "logodds", "neginf_row", "big", "tiny", "finite_wild", "subnormal"];
 
 /// Build matrix `kind` of width `m` for alphabet size `k`. `win` selects which 4(8)-row window of an
 /// "enc" matrix is active.
@@ -318,6 +327,11 @@ pub fn make_matrix(kind: &str, m: usize, k: usize, win: usize) -> Vec<Vec<f32>> 
             .collect(),
         "tiny" => (0..m)
             .map(|j| (0..k).map(|s| if s == k - 1 { ninf } else { (((j * 3 + s * 5) % 13) as f32 - 6.0) * 1.0e-6 }).collect())
+            .collect(),
+        // subnormal cells (integer multiples of 2^-140: every partial sum is exact and stays subnormal): a kernel running
+        // with flush-to-zero / denormals-are-zero would return 0
+        "subnormal" => (0..m)
+            .map(|j| (0..k).map(|s| if s == k - 1 { ninf } else { (((j * 3 + s * 5) % 13) as f32 - 6.0) * f32::from_bits(0x0000_0200) }).collect())
             .collect(),
         "finite_wild" => (0..m)
             .map(|j| (0..k).map(|s| ((j * 2 + s * 7) % 9) as f32 * 0.25 - 1.0).collect())
@@ -399,6 +413,7 @@ fn run_shapes<A: Alphabet>(alpha: &'static str, ctx: &mut Ctx, rep: &mut Report,
                             matrix: make_matrix(kind, m, k, win),
                             origin: format!("shapes L={} M={} matrix={}#{} pattern={} wildcard_at={:?}", l, m, kind, win, p, wild),
                             wrap_override: None,
+                            spare_rows: 0,
                         };
                         ctx.crumb(|| case.origin.clone());
                         let o = check_case::<A>(&case, &cfgs::ALL_CFGS, big);
@@ -435,6 +450,7 @@ fn run_shapes<A: Alphabet>(alpha: &'static str, ctx: &mut Ctx, rep: &mut Report,
                     matrix: make_matrix("enc", m, k, 0),
                     origin: format!("shapes/extra-wrap L={} M={} wrap={}", l, m, w),
                     wrap_override: Some(w),
+                    spare_rows: 0,
                 };
                 let o = check_case::<A>(&case, &cfgs::ALL_CFGS, false);
                 for _ in 0..o.invocations {
@@ -442,6 +458,34 @@ fn run_shapes<A: Alphabet>(alpha: &'static str, ctx: &mut Ctx, rep: &mut Report,
                 }
                 for (sig, msg, cfg) in o.failures {
                     rep.violation(format!("C01 {} {} extra-wrap {}", alpha, cfg.map(|c| c.name()).unwrap_or("-"), sig), msg, || case.json(cfg));
+                }
+            }
+        }
+    }
+    // hand-built striped sequences with MORE sequence rows than necessary (StripedSequence::new accepts any matrix
+    // large enough for the length): position i sits at row i mod R', column i div R'
+    for &l in &[0usize, 1, 5, 31, 32, 33, 64, 80, 100, 1025] {
+        for &m in &[1usize, 3, 8] {
+            for &spare in &[1usize, 2, 5] {
+                let idx = *base;
+                *base += 1;
+                if !ctx.mine(idx) {
+                    continue;
+                }
+                let case = Case {
+                    alpha,
+                    seq: model::digit_pattern_wild(l, k, 0, 5),
+                    matrix: make_matrix("enc", m, k, 0),
+                    origin: format!("shapes/spare-rows L={} M={} spare={}", l, m, spare),
+                    wrap_override: None,
+                    spare_rows: spare,
+                };
+                let o = check_case::<A>(&case, &cfgs::ALL_CFGS, false);
+                for _ in 0..o.invocations {
+                    rep.eval_distinct(o.nontrivial);
+                }
+                for (sig, msg, cfg) in o.failures {
+                    rep.violation(format!("C01 {} {} spare-rows {}", alpha, cfg.map(|c| c.name()).unwrap_or("-"), sig), msg, || case.json(cfg));
                 }
             }
         }
@@ -498,6 +542,7 @@ fn run_small<A: Alphabet>(alpha: &'static str, ctx: &mut Ctx, rep: &mut Report, 
                         matrix: matrix.clone(),
                         origin: format!("small L={} seq#{} M={} matrix#{}", l, si, m, mi),
                         wrap_override: None,
+                        spare_rows: 0,
                     };
                     // lane-count variety matters little for <= 6 symbols: one of each family
                     let set = [Cfg::GenU32, Cfg::GenU2, Cfg::SseU16, Cfg::AvxU32, Cfg::DispGen, Cfg::DispSse, Cfg::DispAvx];
@@ -527,7 +572,7 @@ fn run_small<A: Alphabet>(alpha: &'static str, ctx: &mut Ctx, rep: &mut Report, 
 
 use crate::cfgs::{HOp, HSnap};
 
-const REUSE_LENS: [usize; 4] = [70, 100, 120, 0];
+const REUSE_LENS: [usize; 5] = [70, 100, 120, 0, 5];
 const REUSE_WIDTHS: [usize; 3] = [1, 3, 8];
 
 fn reuse_seq(k: usize) -> Vec<u8> {
@@ -637,7 +682,7 @@ fn run_reuse(ctx: &mut Ctx, rep: &mut Report, base: &mut u64) {
         "reuse",
         &format!(
             "histories on ONE StripedSequence and ONE StripedScores buffer (the normal way of scanning several sequences with several motifs): initial state stripe(sequence of length 70) + empty score buffer; \
-             operation alphabet ({} ops) = stripe_into a sequence of length {{70,100,120,0}} (100 and 120 give the same row count on 32 lanes), configure for a motif of width {{1,3,8}}, configure+score_into for each width, configure+score_rows_into(1..R); \
+             operation alphabet ({} ops) = stripe_into a sequence of length {{70,100,120,0,5}} (100 and 120 give the same row count on 32 lanes; 0 and 5 are shorter than the widest motif), configure for a motif of width {{1,3,8}}, configure+score_into for each width, configure+score_rows_into(1..R); \
              ALL operation sequences of length 1..={} ending in a scoring operation, each re-executed on fresh objects, under all 14 configurations (DNA, window-encoding matrices: injective in the window content, exact sums); \
              oracle on the last operation: row count, max_index = L-M+1, unstripe/iter lengths, every valid cell = the exact sum for the CURRENT sequence and motif",
             ops.len(),
@@ -690,8 +735,8 @@ pub fn run(ctx: &mut Ctx, rep: &mut Report) {
         rep.space(
             "shapes",
             "product: alphabet {DNA,protein} x L (every 0..=200 quick / 0..=1100 thorough, plus +-2 around 992,1024,1056,2048,8160,8192,8224) x M ({1,2,3,5,8,34} quick; 1..=12,16,33,34,40 thorough) \
-             x matrix kind {window-encoding (injective base-(K+1) code, every 8(4)-row window), integer, log-odds, -inf rows, 1e6, 1e-6, finite wildcard} x content (digit patterns p<ceil(log_{K-1}(L+1)), wildcard-injected variants); \
-             on every point all 11 configurations {generic U1,U2,U4,U16,U32; sse2 U16,U32; avx2 U32; dispatcher arms generic/sse2/avx2} x row sub-range menu (all a<=b when R<=5, boundary menu otherwise) are run; \
+             x matrix kind {window-encoding (injective base-(K+1) code, every 8(4)-row window), integer, log-odds, -inf rows, 1e6, 1e-6, finite wildcard, subnormal cells (multiples of 2^-140)} x content (digit patterns p<ceil(log_{K-1}(L+1)), wildcard-injected variants); \
+             plus extra look-ahead rows and hand-built striped sequences with 1/2/5 spare sequence rows (StripedSequence::new); on every point all 14 configurations {generic U1,U2,U4,U16,U32; sse2 U16,U32; avx2 U32; dispatcher arms generic/sse2/avx2} x row sub-range menu (all a<=b when R<=5, boundary menu otherwise) are run; \
              oracle: exact f64 sum per position within the recursive-summation bound, row counts, max_index, unstripe/Index/iter, score_position, ScoringMatrix::score, == across configurations. \
              evaluations = kernel invocations; non-trivial = L>=M and some non-wildcard symbol",
         );
